@@ -179,21 +179,34 @@ Definition names_ok (n : net) (v : vid) : bool :=
                                       forallb (fun j => negb (String.eqb x (z ++ "_in" ++ digit_str j))) (seq 0 k)) B) B.
 Definition guard_names (n : net) : bool := forallb (fun e => names_ok n (etgt e)) (nedges n).
 
-(* labels of the sources of a connected operator input `a` have the shape a_v<k>: the operator must not own such a name *)
+(* backend labels of a variable `a` have the shape a or a_v<k> (_generate_unique_label); replace_in_expr substitutes frontend
+   symbols by backend symbols in a non-simultaneous second pass, so an operator must not own both `a` and a name of the
+   shape a_v<k> (otherwise the label of one variable can be taken for the other variable) *)
 Definition guard_labels (n : net) : bool :=
   forallb (fun p : string * list oper =>
     forallb (fun o =>
-      forallb (fun d =>
-        match vk d with
-        | VInput =>
-            match producers (fst p) (snd p) (vname d), in_edges n (fst p, oname o, vname d) with
-            | [], [] => true
-            | _, _ => negb (existsb (fun d' => is_vk_of (vname d) (vname d')) (ovars o))
-            end
-        | _ => true
-        end) (ovars o)) (snd p)) (nnodes n).
+      forallb (fun d => negb (existsb (fun d' => is_vk_of (vname d) (vname d')) (ovars o))) (ovars o)) (snd p)) (nnodes n).
 
-Definition guard (n : net) : bool := guard_d3 n && guard_names n && guard_labels n.
+(* the expression parser (backend/parser.py, C05's subject) fails with AttributeError at compile time on some right-hand
+   sides in which a sum-substituted input occurs three times in one product (`1.0*(a+a_v1)**3` is re-associated by sympy and
+   the parser's sub-expression replacement leaves a dangling sum): inputs must have degree <= 2 in every right-hand side *)
+Fixpoint deg_in (a : string) (e : expr) : nat :=
+  match e with
+  | ECst _ => 0
+  | EVar x => if String.eqb x a then 1 else 0
+  | EAdd p q | ESub p q => Nat.max (deg_in a p) (deg_in a q)
+  | EMul p q => deg_in a p + deg_in a q
+  | ENeg p => deg_in a p
+  | EPow p k => k * deg_in a p
+  end.
+Definition guard_parser (n : net) : bool :=
+  forallb (fun p : string * list oper =>
+    forallb (fun o =>
+      forallb (fun d => match vk d with
+                        | VInput => forallb (fun q => (deg_in (vname d) (rhs q) <? 3)%nat) (oeqs o)
+                        | _ => true end) (ovars o)) (snd p)) (nnodes n).
+
+Definition guard (n : net) : bool := guard_d3 n && guard_names n && guard_labels n && guard_parser n.
 
 (* ---------------------------------------------------------------------------------------------- harness helpers *)
 (* observed state map: positions pairwise distinct, inside the state vector, exactly the declared state variables *)
